@@ -366,6 +366,43 @@ func runC02(c *Ctx) {
 		return
 	}
 	st.checkTranscoder()
+	// X8: the guard X6 lets a *directory* entry designate the destination. Whether an entry is a directory is asked of the entry
+	// once and for all — zip.FileHeader.FileInfo().IsDir(), which goes by the trailing slash *and* by the directory bit of the
+	// mode: the extraction of a file (unzipZippedFile) lies on the false side of that very question. Decided by another
+	// predicate (the trailing slash alone), an entry named `.` with the directory bit set passes the guard as a directory and
+	// is then written as a file in the place of the destination.
+	c.rule("X8", "in unzip an entry is extracted as a file (unzipZippedFile) only on the false side of FileInfo().IsDir() of that entry: the question the destination guard asks is the question that decides", 1)
+	{
+		unz := st.unzip
+		isIsDir := func(v ssa.Value) bool {
+			cl, ok := v.(*ssa.Call)
+			if !ok || !cl.Call.IsInvoke() || cl.Call.Method.Name() != "IsDir" {
+				return false
+			}
+			for _, l := range sources(cl.Call.Value, deriveOpts{}) {
+				if k, ok := l.(*ssa.Call); ok && strings.HasSuffix(calleeFull(&k.Call), "zip.FileHeader).FileInfo") {
+					return true
+				}
+			}
+			return false
+		}
+		bad := ""
+		n := 0
+		allInstrs(unz, func(in ssa.Instruction) {
+			cl, ok := in.(*ssa.Call)
+			if !ok {
+				return
+			}
+			if g := staticCallee(&cl.Call); g != nil && g.Name() == "unzipZippedFile" {
+				n++
+				if !onBoolSide(cl, false, isIsDir) {
+					bad = c.ipos(cl)
+				}
+			}
+		})
+		c.check(n > 0 && bad == "", "X8", fname(unz)+"/file-or-directory-asked-once", c.pos(unz.Pos()), "a file is extracted only where FileInfo().IsDir() answered false",
+			"the entry extracted as a file at "+bad+" was not found not to be a directory by FileInfo().IsDir() (another predicate — the trailing slash of the name — decides): an entry named `.` or `a/..` whose mode carries the directory bit, as archivers write it, passes the destination guard as a directory and is then written as a file in the place of the destination; in recursive mode, at a destination named like an archive, its content is extracted next to the destination and the call returns nil")
+	}
 	// X6: a *file* entry whose name resolves to the destination itself is refused before anything is written: where the
 	// sanitised path was found equal to the destination an error exit is taken (for the entries that are not directories),
 	// and that test comes before the file is extracted (the defect F90 of the pinned sources, repaired).
